@@ -502,7 +502,7 @@ pub fn families(tier: Tier) -> Vec<Box<dyn Family>> {
     v.push(Box::new(Strings { name: format!("val token strings <= {lv}, blank separated"), val: true, tokens: val_tokens.clone(), sep: " ", space: StringSpace::new(val_tokens.len(), lv) }));
     v.push(Box::new(Strings { name: format!("val token strings <= {}, concatenated", lv - 1), val: true, tokens: val_tokens.clone(), sep: "", space: StringSpace::new(val_tokens.len(), lv - 1) }));
     // long and multi-byte tokens
-    let odd_tokens = sv(&["(", ")", ",", "x", "+", "sin", "abcdefghijklmnopqrstuvwxyz_0123456789", "123456789012345678901234567890.5", "\u{1F44D}", "{\u{1F44D} x}", "\u{3c9}", "1e5", "  ", "\t", "\u{391}\u{3b2}", "max"]);
+    let odd_tokens = sv(&["(", ")", ",", "x", "+", "sin", "abcdefghijklmnopqrstuvwxyz_0123456789", "123456789012345678901234567890.5", "\u{1F44D}", "{\u{1F44D} x}", "\u{3c9}", "1e5", "  ", "\t", "\u{391}\u{3b2}", "max", "\u{b2}", "\u{bd}", "\u{ff13}", "\u{663}", "1.\u{bd}"]);
     let lo = if th { 5 } else { 4 };
     v.push(Box::new(Strings { name: format!("f64 long/multi-byte token strings <= {lo}, blank separated"), val: false, tokens: odd_tokens.clone(), sep: " ", space: StringSpace::new(odd_tokens.len(), lo) }));
     v.push(Box::new(Strings { name: format!("f64 long/multi-byte token strings <= {lo}, concatenated"), val: false, tokens: odd_tokens.clone(), sep: "", space: StringSpace::new(odd_tokens.len(), lo) }));
